@@ -169,6 +169,22 @@ impl Collector {
     }
 }
 
+/// Does the request target name the export endpoint of this signal? (A collector answers 404 / UNIMPLEMENTED to
+/// anything else, however well-formed the body.)
+fn path_known(signal: Signal, target: &str) -> bool {
+    // HTTP/1.1 clients may send the absolute form
+    let path = match target.strip_prefix("http://") {
+        Some(rest) => rest.find('/').map(|i| &rest[i..]).unwrap_or("/"),
+        None => target,
+    };
+    let (http, grpc) = match signal {
+        Signal::Logs => ("/v1/logs", "/opentelemetry.proto.collector.logs.v1.LogsService/Export"),
+        Signal::Traces => ("/v1/traces", "/opentelemetry.proto.collector.trace.v1.TraceService/Export"),
+        Signal::Metrics => ("/v1/metrics", "/opentelemetry.proto.collector.metrics.v1.MetricsService/Export"),
+    };
+    path == http || path == grpc
+}
+
 fn find_markers(body: &[u8]) -> Vec<String> {
     let mut out = Vec::new();
     let mut i = 0;
@@ -233,7 +249,12 @@ async fn http1_conn(mut stream: SimStream, col: Arc<Collector>, host: HostCfg, c
             (path, cl, gz)
         };
         buf.drain(..head_end);
-        let decision = col.decide(host.signal);
+        let decision = if path_known(host.signal, &path) {
+            col.decide(host.signal)
+        } else {
+            *col.fired.lock().unwrap().entry("unknown_request_path").or_insert(0) += 1;
+            Decision::Status(404)
+        };
         let at = col.sched.now();
         let mut entry = ReqLog {
             at,
@@ -368,8 +389,14 @@ async fn grpc_conn(stream: SimStream, col: Arc<Collector>, host: HostCfg, conn: 
                     sim_sleep(3_600_000).await;
                     return;
                 }
-                let decision = col.decide(host.signal);
                 let path = req.uri().path().to_string();
+                let decision = if path_known(host.signal, &path) {
+                    col.decide(host.signal)
+                } else {
+                    // UNIMPLEMENTED: 1 + (11 % 14) = grpc-status 12
+                    *col.fired.lock().unwrap().entry("unknown_request_path").or_insert(0) += 1;
+                    Decision::Status(11)
+                };
                 col.note(format!("conn {conn}: gRPC {path} -> {decision:?}"));
                 if matches!(decision, Decision::CloseBeforeRead | Decision::ResetMidBody) {
                     col.log.lock().unwrap().push(ReqLog {
@@ -990,6 +1017,8 @@ impl Engine for OtlpSim {
         let custom_headers = ch.chance(1, 3);
         // the per-signal convenience constructors (`logs_http_proto(url)` ...) instead of a transport builder
         let short_forms = ch.chance(1, 4);
+        // the gRPC base URL written with a trailing slash
+        let grpc_trailing_slash = ch.chance(1, 3);
         // rarely: one event that alone exceeds the 1 MiB request limit
         if !c14 && ch.chance(1, 150) && !events.is_empty() {
             let k = ch.choose(events.len() as u32) as usize;
@@ -1037,7 +1066,7 @@ impl Engine for OtlpSim {
             let url = |path: &str| format!("http://{}:4318{}", h.host, path);
             let transport = |path: &str| {
                 let t = match h.transport {
-                    Transport::GrpcProto => emit_otlp::grpc(format!("http://{}:4317", h.host)).allow_compression(h.gzip),
+                    Transport::GrpcProto => emit_otlp::grpc(format!("http://{}:4317{}", h.host, if grpc_trailing_slash { "/" } else { "" })).allow_compression(h.gzip),
                     _ => emit_otlp::http(url(path)).allow_compression(h.gzip),
                 };
                 if custom_headers {
@@ -1047,7 +1076,7 @@ impl Engine for OtlpSim {
                 }
             };
             let short = short_forms && h.gzip && !custom_headers;
-            let grpc_base = format!("http://{}:4317", h.host);
+            let grpc_base = format!("http://{}:4317{}", h.host, if grpc_trailing_slash { "/" } else { "" });
             builder = match (h.signal, h.transport) {
                 (Signal::Logs, Transport::HttpJson) if short => builder.logs(emit_otlp::logs_http_json(url("/v1/logs"))),
                 (Signal::Logs, Transport::GrpcProto) if short => builder.logs(emit_otlp::logs_grpc_proto(grpc_base)),
